@@ -52,6 +52,9 @@ MIXED = {
  "C08": "Proved by pyvc+z3: shm Manager.__init__/add/purge/page_out(+callback)/page_in(+callback)/get/close_callback against contracts over the WHOLE dataset map with the ghost aggregate 'used' "
         "(sum of in-memory sizes <= capacity preserved by every operation, nothing but the named key changes; 348 VCs). Assumed: Manager.page_out_at_least (6 of its 29 VCs time out) and the victim lottery. ",
  "C09": "Proved by pyvc+z3: Manager.is_pageoutable/get/close_callback/purge/page_out callback - a dataset with a live reader is never chosen or unlinked, delayed purge happens at the last close (283 VCs). ",
+ "C10": "Proved by pyvc+z3: executor.runner.runner.run - the callable is invoked once, first, with every static argument and every upstream value (Memory.provide of the declared source) in its declared "
+        "position / under its declared name and nothing else; one output: the result is stored under it; several outputs: the j-th yielded value is stored under the j-th declared output in key order, "
+        "one store per output, and a count mismatch raises (task failure); low.func.ensure (84 VCs, loop invariants for every number of arguments / outputs). graph2job/node2task stay bounded. ",
  "C16": "Proved by pyvc+z3: views.dependants and views.param_source (the two views through which precompute, the controller State and the runner read the edge list): consumers / inputs "
         "recorded exactly as the edges state, ill-formed edge rejected (45 VCs, loop invariants for every edge count). decompose/enrich/nearest_common_descendant stay bounded. ",
  "C19": "Proved by pyvc+z3: TaskBuilder.with_values, JobBuilder.with_node/with_edge/get_edge_errors against persistence and exact-error-list contracts (152 VCs). ",
